@@ -35,24 +35,27 @@ func (e *bcdEncoder) Decode(src []byte, length int) ([]byte, int, error) {
 		return nil, 0, fmt.Errorf("length should be positive, got %d", length)
 	}
 
-	// for BCD encoding the length should be even
-	decodedLen := length
-	if length%2 != 0 {
-		decodedLen += 1
-	}
-
-	// how many bytes we will read
-	read := bcd.EncodedLen(decodedLen)
+	// how many bytes we will read: two digits per byte, an odd number of
+	// digits takes a filler digit (computed without overflowing int)
+	read := length/2 + length%2
 
 	if len(src) < read {
 		return nil, 0, fmt.Errorf("not enough data to decode. expected len %d, got %d", read, len(src))
 	}
 
+	// for BCD encoding the length should be even
+	decodedLen := 2 * read
+
 	dec := bcd.NewDecoder(bcd.Standard)
 	dst := make([]byte, decodedLen)
-	_, err := dec.Decode(dst, src[:read])
+	n, err := dec.Decode(dst, src[:read])
 	if err != nil {
 		return nil, 0, utils.NewSafeError(err, "failed to perform BCD decoding")
+	}
+
+	// a filler nibble in the last byte decodes to a single digit
+	if n != decodedLen {
+		return nil, 0, utils.NewSafeError(bcd.ErrBadBCD, "failed to perform BCD decoding")
 	}
 
 	// becase BCD is right aligned, we skip first bytes and
